@@ -422,6 +422,8 @@ impl MemoryMap {
     /// * The size of the file is not a multiple of 8 bytes.
     /// * Memory mapping the file fails.
     pub fn new<P: AsRef<Path>>(filename: P, mode: MappingMode) -> io::Result<MemoryMap> {
+        #[cfg(simple_sds_verif)]
+        use crate::verif_io::sys as libc;
         let write = match mode {
             MappingMode::ReadOnly => false,
             MappingMode::Mutable => true,
@@ -498,6 +500,8 @@ impl AsRef<[u64]> for MemoryMap {
 #[cfg(not(target_family = "wasm"))]
 impl Drop for MemoryMap {
     fn drop(&mut self) {
+        #[cfg(simple_sds_verif)]
+        use crate::verif_io::sys as libc;
         unsafe {
             let _ = libc::munmap(self.ptr.cast::<libc::c_void>(), self.len);
         }
@@ -979,6 +983,8 @@ impl<'a, T: MemoryMapped<'a>> MemoryMapped<'a> for MappedOption<'a, T> {
 ///
 /// Any errors from [`OpenOptions::open`] and [`Serialize::serialize`] will be passed through.
 pub fn serialize_to<T: Serialize, P: AsRef<Path>>(item: &T, filename: P) -> io::Result<()> {
+    #[cfg(simple_sds_verif)]
+    use crate::verif_io::OpenOptions;
     let mut options = OpenOptions::new();
     let mut file = options.create(true).write(true).truncate(true).open(filename)?;
     item.serialize(&mut file)?;
@@ -993,6 +999,8 @@ pub fn serialize_to<T: Serialize, P: AsRef<Path>>(item: &T, filename: P) -> io::
 ///
 /// Any errors from [`OpenOptions::open`] and [`Serialize::load`] will be passed through.
 pub fn load_from<T: Serialize, P: AsRef<Path>>(filename: P) -> io::Result<T> {
+    #[cfg(simple_sds_verif)]
+    use crate::verif_io::OpenOptions;
     let mut options = OpenOptions::new();
     let mut file = options.read(true).open(filename)?;
     <T as Serialize>::load(&mut file)
